@@ -488,6 +488,71 @@ def check_record_shapes_around_open_type(rep):
                                 rep.fail('record-shape:raw', '%s: with resolution off the field is not the inner encoding' % label, dict(case, bytes=data.hex()))
 
 
+def check_maps_do_not_leak(rep):
+    """what one open type field resolves to is decided by its own map and the caller's: two fields of one record governed by
+    the same member, whose maps give that governing value different types, each decode by their own map; a caller-supplied map
+    handed to several decodes is read, never written - it holds afterwards what it held before, and a later decode of another
+    record type whose own map differs is not affected by an earlier one"""
+    from pyasn1.type import univ, char, namedtype, opentype, tag as ptag
+
+    def ctx(n):
+        return ptag.Tag(ptag.tagClassContext, ptag.tagFormatConstructed, n)
+    ints = univ.SequenceOf(componentType=univ.Integer())
+    pairs = [('int-vs-octets', univ.Integer(), univ.Integer(5), univ.OctetString(), univ.OctetString(b'ab')),
+             ('octets-vs-utf8', univ.OctetString(), univ.OctetString(b'xy'), char.UTF8String(), char.UTF8String(u'xy')),
+             ('seqof-vs-bool', ints, (lambda o: (o.extend([1, 2]), o)[1])(ints.clone()), univ.Boolean(), univ.Boolean(True))]
+    for container in (univ.Sequence, univ.Set):
+        for label, t1, x1, t2, x2 in pairs:
+            two = container(componentType=namedtype.NamedTypes(
+                namedtype.NamedType('id', univ.Integer()),
+                namedtype.NamedType('first', univ.Any().subtype(explicitTag=ctx(0)), openType=opentype.OpenType('id', {1: t1})),
+                namedtype.NamedType('second', univ.Any().subtype(explicitTag=ctx(1)), openType=opentype.OpenType('id', {1: t2}))))
+            one_a = container(componentType=namedtype.NamedTypes(
+                namedtype.NamedType('id', univ.Integer()),
+                namedtype.NamedType('value', univ.Any().subtype(explicitTag=ctx(0)), openType=opentype.OpenType('id', {1: t1}))))
+            one_b = container(componentType=namedtype.NamedTypes(
+                namedtype.NamedType('id', univ.Integer()),
+                namedtype.NamedType('value', univ.Any().subtype(explicitTag=ctx(0)), openType=opentype.OpenType('id', {1: t2}))))
+            for cdc, dm in MODES:
+                for caller in (None, {}, {9: univ.Null()}):
+                    rep.evaluations += 1
+                    rep.count('maps-do-not-leak')
+                    case = {'kind': 'maps-do-not-leak', 'container': container.__name__, 'types': label, 'codec': cdc, 'defMode': dm,
+                            'caller-map': None if caller is None else sorted(map(str, caller))}
+                    try:
+                        v = two.clone()
+                        v['id'] = 1
+                        v['first'] = x1
+                        v['second'] = x2
+                        data = enc(cdc, v, dm)
+                        a = one_a.clone()
+                        a['id'] = 1
+                        a['value'] = x1
+                        b = one_b.clone()
+                        b['id'] = 1
+                        b['value'] = x2
+                        da, db = enc(cdc, a, dm), enc(cdc, b, dm)
+                        kw = dict(decodeOpenTypes=True)
+                        if caller is not None:
+                            kw['openTypes'] = caller
+                        before = None if caller is None else dict(caller)
+                        res, rest = codec.DEC[cdc].decode(data, asn1Spec=two, **kw)
+                        ra, _ = codec.DEC[cdc].decode(da, asn1Spec=one_a, **kw)
+                        rb, _ = codec.DEC[cdc].decode(db, asn1Spec=one_b, **kw)
+                        ra2, _ = codec.DEC[cdc].decode(da, asn1Spec=one_a, **kw)
+                        got = [(type(o).__name__, bytes(codec.ENC['der'].encode(o)).hex()) for o in (res['first'], res['second'], ra['value'], rb['value'], ra2['value'])]
+                        want = [(type(o).__name__, bytes(codec.ENC['der'].encode(o)).hex()) for o in (x1, x2, x1, x2, x1)]
+                    except Exception as e:  # noqa
+                        rep.fail('maps-do-not-leak:%s' % codec.classify(e), '%s: %r' % (label, e), case)
+                        continue
+                    if got != want or rest:
+                        rep.fail('maps-do-not-leak:resolved-by-another-map', '%s: fields decoded as %s, their own maps give %s' % (label, got, want),
+                                 dict(case, bytes=data.hex()))
+                    elif caller is not None and (sorted(map(str, caller)) != sorted(map(str, before)) or any(caller[k] is not before[k] for k in before)):
+                        rep.fail('maps-do-not-leak:caller-map-written', 'the caller-supplied map held %s before the decodes and %s after' % (
+                            sorted(map(str, before)), sorted(map(str, caller))), case)
+
+
 def check_set_untagged_any(rep):
     """SET { id, value ANY DEFINED BY id } with the ANY left untagged: members of a SET are told apart by tag, the untagged
     ANY stands for every tag no other member has - inner values whose outermost tag differs from the governing member's"""
@@ -653,6 +718,8 @@ def run(rep, tier, seed):
     check_two_open_type_fields(rep)
     rep.case('record shapes around the open type field', nontrivial=True)
     check_record_shapes_around_open_type(rep)
+    rep.case('maps do not leak', nontrivial=True)
+    check_maps_do_not_leak(rep)
     rep.case('set with untagged any', nontrivial=True)
     check_set_untagged_any(rep)
     rep.case('defaulted governing field', nontrivial=True)
